@@ -5,20 +5,23 @@
    characters, the size field; both layouts.  [run (default_str c ck) ops] executes a history from
    the empty string.  [cap_ok c]: 0 <= c < 2^62.  [op_wf]: the numeric arguments are size_t values. *)
 From Tetl Require Import Lib.Base C08.Model C08.Spec C08.Core C04.Model C04.Spec C04.Inv C04.InvOps C04.Refuted
-  C04.RefineBase C04.RefineOps1 C04.Refine.
+  C04.CstrFacts C04.RefineBase C04.RefineOps1 C04.Refine C04.Total.
 Local Open Scope Z_scope.
 
 (** * Refinement: the model is std::basic_string wherever the std result fits into the capacity.
       [Spec.spec_step l o] is std::basic_string's operation on the character list l ([None]: std throws
       out_of_range or the call violates a precondition of the standard); [sop_of] maps a model operation to
       the std operation with the same arguments; [spec_run_fits c] runs a history and requires every
-      intermediate std result to have at most c characters; [contents s] = the first size() characters. *)
+      intermediate std result to have at most c characters; [contents s] = the first size() characters.
+      [op_wf]: numeric arguments are size_t values, a Char const* argument points into an array (< 2^63
+      characters) that holds a null character.  [arg_ok c]: a basic_inplace_string argument of the same type
+      has at most c characters; the array behind a string_view argument has fewer than 2^63 characters. *)
 
 (* EVERY history from the empty string, for EVERY capacity (both layouts) and character type: if std defines
    every step and every intermediate result fits, the model returns (no precondition failure, no access
    outside the array), and contents, size() and the terminator are those of the std string.
    (A prefix of such a history is such a history, so this holds after every step.) *)
-Theorem C04_history_refines_std : forall c ck ops l', cap_ok c -> Forall op_wf ops ->
+Theorem C04_history_refines_std : forall c ck ops l', cap_ok c -> Forall op_wf ops -> Forall (arg_ok c) ops ->
   spec_run_fits c [] (map sop_of ops) = Some l' ->
   exists s', run (default_str c ck) ops = Ok s' /\ contents s' = l' /\ get_size s' = slen l' /\
              terminator s' = 0 /\ cap s' = c /\ ckind s' = ck /\ zlen (buf s') = c + 1.
@@ -26,11 +29,24 @@ Proof. exact history_refines. Qed.
 Print Assumptions C04_history_refines_std.
 
 (* one operation from ANY state satisfying the invariant *)
-Theorem C04_step_refines_std : forall s o l', inv s -> op_wf o ->
+Theorem C04_step_refines_std : forall s o l', inv s -> op_wf o -> arg_ok (cap s) o ->
   spec_step (contents s) (sop_of o) = Some l' -> slen l' <= cap s ->
   exists s', step s o = Ok s' /\ (inv s' /\ cap s' = cap s /\ ckind s' = ckind s) /\ contents s' = l'.
 Proof. exact step_refines. Qed.
 Print Assumptions C04_step_refines_std.
+
+(* swap: BOTH objects exchange their contents and keep the invariant (in the tiny layout the size byte of a full
+   string is one of the swapped characters) *)
+Theorem C04_swap_both : forall a b, inv a -> inv b -> cap b = cap a ->
+  exists a' b', swap_m a b = Ok (a', b') /\ inv a' /\ inv b' /\ contents a' = contents b /\ contents b' = contents a /\
+                cap a' = cap a /\ cap b' = cap b.
+Proof. exact swap_both. Qed.
+Print Assumptions C04_swap_both.
+
+(* the iterator returned by erase(first, last) / erase(position): begin() + start, as std *)
+Theorem C04_returned_iterator : forall o, returned_pos o = spec_returned_pos (sop_of o).
+Proof. exact returned_pos_refines. Qed.
+Print Assumptions C04_returned_iterator.
 
 (* the executable [spec_step_fits] used by the spec leg of the correspondence run is exactly
    "std defines the result and it has at most c characters" *)
@@ -64,10 +80,49 @@ Theorem C04_size_roundtrip : forall s n, cap_ok (cap s) -> zlen (buf s) = cap s 
 Proof. exact unsafe_set_size_ok. Qed.
 Print Assumptions C04_size_roundtrip.
 
+(* the count returned by etl::erase(s, value) / etl::erase_if(s, pred): the number of erased characters, as std *)
+Theorem C04_returned_count : forall s o, inv s ->
+  match o with OFreeErase _ | OFreeEraseIf _ => True | _ => False end ->
+  returned_count s o = Ok (spec_returned_count (contents s) (sop_of o)).
+Proof. exact returned_count_refines. Qed.
+Print Assumptions C04_returned_count.
+
+(* replace — whose in-place overwrite is the recorded known finding below — still keeps the invariant, in all
+   four index-based overloads (as the code is after fix commits 5f6ea98 / 30e894f / cb22248; before them a
+   count of npos wrapped the range computation and the terminator was overwritten) *)
+Theorem C04_replace_keeps_invariant :
+  (forall s pos count src s', inv s -> 0 <= pos -> replace_m s pos count src = Ok s' ->
+     inv s' /\ cap s' = cap s /\ ckind s' = ckind s) /\
+  (forall s pos count src count2 s', inv s -> 0 <= pos -> replace_ptr_m s pos count src count2 = Ok s' ->
+     inv s' /\ cap s' = cap s /\ ckind s' = ckind s) /\
+  (forall s pos count a s', inv s -> 0 <= pos -> replace_cstr_m s pos count a = Ok s' ->
+     inv s' /\ cap s' = cap s /\ ckind s' = ckind s) /\
+  (forall s pos count src pos2 count2 s', inv s -> 0 <= pos -> replace5_m s pos count src pos2 count2 = Ok s' ->
+     inv s' /\ cap s' = cap s /\ ckind s' = ckind s).
+Proof. exact (conj replace_keeps (conj replace_ptr_keeps (conj replace_cstr_keeps replace5_keeps))). Qed.
+Print Assumptions C04_replace_keeps_invariant.
+
+(** * Outcome of EVERY call (also outside the domain of the refinement theorem): a mutator either returns a state
+      satisfying the invariant or stops at a TETL_PRECONDITION — exactly when the documented precondition
+      [pre_ok s o] (Total.v: e.g. size() < capacity() for push_back, index <= size() for insert and erase,
+      count <= capacity() for assign, the other string fits and nothing overflows for append(str)) is false.
+      It never accesses the array out of bounds ([UB]) and no loop runs out of fuel.
+      [ptr_ok]: a (pointer, count) argument stays inside the array the pointer points into. *)
+Theorem C04_step_outcome : forall s o, inv s -> op_wf o -> ptr_ok o ->
+  if pre_ok s o then exists s', step s o = Ok s' /\ (inv s' /\ cap s' = cap s /\ ckind s' = ckind s)
+  else step s o = Contract.
+Proof. exact step_outcome. Qed.
+Print Assumptions C04_step_outcome.
+
+Theorem C04_history_never_ub : forall ops s, inv s -> Forall op_wf ops -> Forall ptr_ok ops ->
+  (exists s', run s ops = Ok s' /\ (inv s' /\ cap s' = cap s /\ ckind s' = ckind s)) \/ run s ops = Contract.
+Proof. exact run_never_ub. Qed.
+Print Assumptions C04_history_never_ub.
+
 (* recorded known findings (behaviour pinned by tests/string): the faithful model differs from std *)
 Theorem C04_replace_refuted :
   exists s pos count src s', inv s /\ replace_m s pos count src = Ok s' /\
-    contents s' <> s_replace (contents s) pos count src.
+    Some (contents s') <> s_replace (contents s) pos count src.
 Proof. exact replace_refuted. Qed.
 Print Assumptions C04_replace_refuted.
 
@@ -82,9 +137,14 @@ Example C04_nonvacuous :
   (exists s', run (default_str 15 CChar) [OAppendFill 15 97; OSwapWith [98]; OResize 3 99] = Ok s' /\
               contents s' = [98; 99; 99]) /\
   spec_run_fits 15 [] (map sop_of [OAppendFill 15 97; OSwapWith [98]; OResize 3 99]) = Some [98; 99; 99] /\
-  spec_run_fits 16 [] (map sop_of [OAppendFill 16 97; OInsertPtr 3 [98; 99] 0; OErase 1 18446744073709551615]) = Some [97].
+  spec_run_fits 16 [] (map sop_of [OAppendFill 16 97; OInsertPtr 3 [98; 99] 0; OErase 1 18446744073709551615]) = Some [97] /\
+  (let h := [OAppendCstr [97; 98; 0; 99]; OInsertStrSub 1 [120; 121; 122] 1 18446744073709551615; OAppendStrSub [100; 101] 1 5;
+             OErasePos 0; OAssignViewSub [97; 98; 99] 1 1; OAppendStr [97]] in
+   Forall op_wf h /\ Forall (arg_ok 7) h /\ spec_run_fits 7 [] (map sop_of h) = Some [98; 97]).
 Proof.
   unfold cap_ok, szt. repeat split; try lia.
   - repeat constructor; cbn; unfold szt; lia.
   - eexists. split; [vm_compute; reflexivity|]. vm_compute. reflexivity.
+  - repeat constructor; cbn; unfold szt, cstr_arg_ok, zlen; cbn; try lia; try discriminate.
+  - repeat constructor; cbn; unfold zlen; cbn; lia.
 Qed.
